@@ -62,6 +62,7 @@ TRet ==
        [] Ev.op = "face_query"   -> FaceQuery
        [] Ev.op = "featval"      -> FeatVal(Ev.arg)
        [] Ev.op = "destroy_fval" -> DestroyFval
+       [] Ev.op = "edit_fval"    -> EditFval
        [] Ev.op = "make_font"    -> MakeFont(Ev.arg)
        [] Ev.op = "destroy_font" -> DestroyFont
        [] Ev.op = "make_seg"     -> MakeSeg(Ev.arg)
